@@ -6,7 +6,7 @@ from pedal.types.new_types import (AnyType, ImpossibleType,
                                    DictType, SetType, GeneratorType,
                                    FunctionType,
                                    InstanceType, ClassType, LiteralValue,
-                                   IntType, FloatType)
+                                   IntType, FloatType, TypeUnion, is_subtype)
 
 
 def add_tuples(left, right):
@@ -19,11 +19,17 @@ def add_tuples(left, right):
 
 
 def add_element_container_types(left, right):
-    """ Use whichever type is not empty """
+    """ Use whichever type is not empty; when neither is, the elements of
+    both are in the result """
     if left.is_empty:
         return right.clone()
-    else:
+    if right.is_empty or is_subtype(right.element_type, left.element_type):
         return left.clone()
+    if is_subtype(left.element_type, right.element_type):
+        return right.clone()
+    combined = left.clone()
+    combined.element_type = TypeUnion([left.element_type, right.element_type])
+    return combined
     #return right.element_type.clone() if left.is_empty else left.element_type.clone()
 
 
